@@ -49,16 +49,21 @@ pub fn cases(ctx: &Ctx) -> Vec<WCase> {
             l.outages.push(Outage { from_ms: at, to_ms: at + rr.pick(&[50u64, 80, 120, 200]), kinds: 1 << K_INPUT });
             s.link_overrides.push((from, to, l));
         }
-        // a sixth of the scenarios (derived from the seed, no extra draw): every second packet one direction sends during
-        // 300 ms arrives once more MUCH later - more than the 32 reporting intervals a peer remembers its own checksums for -,
+        // a quarter of the scenarios with an interval <= 6 (derived from the seed, no extra draw): every packet one direction sends during
+        // 600 ms arrives once more MUCH later - more than the 32 reporting intervals a peer remembers its own checksums for -,
         // so a checksum report for a long-forgotten frame sits among the pending ones when the divergence happens
         // (round-7 seed C09)
-        if (s.seed >> 9) % 6 == 0 && iv <= 6 {
+        if (s.seed >> 9) % 4 == 0 && iv <= 6 {
             let (a, b) = (peer_addr(0), peer_addr(1));
             let (from, to) = if (s.seed >> 13) & 1 == 0 { (a, b) } else { (b, a) };
             let mut l = s.link_overrides.iter().find(|o| o.0 == from && o.1 == to).map(|o| o.2.clone()).unwrap_or_else(|| s.link.clone());
             let at = 800 + (s.seed >> 17) % 600;
-            l.stragglers.push(Straggler { from_ms: at, to_ms: at + 300, every: 2, delay_ms: 33 * iv as u64 * 17 + 200 + (s.seed >> 23) % 600, hold: false });
+            l.stragglers.push(Straggler { from_ms: at, to_ms: at + 600, every: 1, delay_ms: 33 * iv as u64 * 17 + 200 + (s.seed >> 23) % 600, hold: false });
+            // the divergence comes after the late copies have arrived (where the run is long enough for that)
+            let arrival_frame = ((at + 600 + l.stragglers.last().unwrap().delay_ms) / 16) as i32 + 10;
+            if arrival_frame < 450 {
+                s.diverge = Some((who, d.max(arrival_frame)));
+            }
             s.link_overrides.retain(|o| !(o.0 == from && o.1 == to));
             s.link_overrides.push((from, to, l));
         }
